@@ -47,6 +47,7 @@ type gCfg struct {
 	HasHTTP   bool
 	Thrift    []*gRoute
 	HasThrift bool
+	built     *xdsresource.RouteConfigResource // the resource object handed to the router (kept while the table is unchanged)
 }
 
 type gFilter struct {
@@ -319,11 +320,30 @@ func classifyRouteErr(err error) string {
 	return "other"
 }
 
+// c08Session: a router, its metadata source and the listener object of the destination live across several calls; the
+// named route tables (and sometimes the listener) change between the calls. Every call is judged on its own against
+// the tables in force when it was made: nothing remembered from an earlier call may show.
+type c08Session struct {
+	valid                      bool
+	pkg, svc, method, toMethod string
+	grpc, custom               bool
+	fs                         []*gFilter
+	lis                        *xdsresource.ListenerResource
+	listenerPresent            bool
+	named                      map[string]*gCfg
+	md                         map[string]string
+	mdBox                      *map[string]string
+	router                     *xdssuite.XDSRouter
+	stub                       *stubManager
+}
+
 func runC08(c *ctx) {
 	g := &c08gen{r: c.rng}
 	n := 2500 * c.budget
+	var sess c08Session
 	for i := 0; i < n; i++ {
 		g.seq = 0
+		reuse := sess.valid && g.r.chance(55)
 		pkg := g.r.pick([]string{"pkg", "", "a.b"})
 		svc := g.r.pick([]string{"svc", "Echo"})
 		method := g.r.pick(c08Methods)
@@ -362,32 +382,89 @@ func runC08(c *ctx) {
 		listenerPresent := !g.r.chance(4)
 		// metadata
 		md := map[string]string{}
-		for _, k := range c08Keys {
-			if g.r.chance(60) {
-				md[k] = g.r.pick(c08Vals)
+		if !g.r.chance(15) { // every seventh call carries no metadata at all
+			for _, k := range c08Keys {
+				if g.r.chance(60) {
+					md[k] = g.r.pick(c08Vals)
+				}
 			}
 		}
 		custom := g.r.chance(40)
 		if custom && g.r.chance(20) {
 			md[g.r.pick(c08Keys)] = "" // present with an empty value (only expressible with a custom extractor)
 		}
-		// run the implementation
-		stub := newStub()
-		useBackend(stub)
 		svcName := "dest"
+		var stub *stubManager
+		var router *xdssuite.XDSRouter
+		var lis *xdsresource.ListenerResource
+		if reuse {
+			// the same router, the same call; the named tables are replaced (one or all of them); the listener object
+			// stays the same two times out of three; the metadata stays the same every other time
+			c.count("session.continued", 1)
+			pkg, svc, method, toMethod, grpc, custom = sess.pkg, sess.svc, sess.method, sess.toMethod, sess.grpc, sess.custom
+			stub, router = sess.stub, sess.router
+			if g.r.chance(67) {
+				fs, lis, listenerPresent = sess.fs, sess.lis, sess.listenerPresent
+				c.count("session.same-listener-object", 1)
+			}
+			if g.r.chance(40) {
+				keep := g.r.pick([]string{"rc-a", "rc-b"})
+				if old, ok := sess.named[keep]; ok {
+					named[keep] = old
+				} else {
+					delete(named, keep)
+				}
+			}
+			if g.r.chance(50) {
+				md = map[string]string{}
+				for k, v := range sess.md {
+					md[k] = v
+				}
+			}
+			if !custom {
+				for k, v := range md {
+					if v == "" {
+						delete(md, k)
+					}
+				}
+			}
+		} else {
+			stub = newStub()
+		}
+		useBackend(stub)
+		if listenerPresent && lis == nil {
+			lis = buildListener(fs)
+		}
+		delete(stub.res, stubKey{xdsresource.ListenerType, svcName})
 		if listenerPresent {
-			stub.res[stubKey{xdsresource.ListenerType, svcName}] = buildListener(fs)
+			stub.res[stubKey{xdsresource.ListenerType, svcName}] = lis
+		}
+		for _, nm := range []string{"rc-a", "rc-b"} {
+			delete(stub.res, stubKey{xdsresource.RouteConfigType, nm})
 		}
 		for nm, cfg := range named {
-			stub.res[stubKey{xdsresource.RouteConfigType, nm}] = cfg.build()
+			if reuse && sess.named[nm] == cfg {
+				continue // unchanged table: the same resource object as before
+			}
+			cfg.built = cfg.build()
+		}
+		for nm, cfg := range named {
+			stub.res[stubKey{xdsresource.RouteConfigType, nm}] = cfg.built
 		}
 		ctx := context.Background()
-		var router *xdssuite.XDSRouter
 		if custom {
-			mdCopy := md
-			router = xdssuite.NewXDSRouter(xdssuite.WithRouterMetaExtractor(func(context.Context) map[string]string { return mdCopy }))
+			if reuse {
+				*sess.mdBox = md
+			} else {
+				box := new(map[string]string)
+				*box = md
+				sess.mdBox = box
+				router = xdssuite.NewXDSRouter(xdssuite.WithRouterMetaExtractor(func(context.Context) map[string]string { return *box }))
+			}
 		} else {
-			router = xdssuite.NewXDSRouter()
+			if !reuse {
+				router = xdssuite.NewXDSRouter()
+			}
 			for k, v := range md {
 				ctx = metainfo.WithValue(ctx, k, v)
 			}
@@ -396,6 +473,8 @@ func runC08(c *ctx) {
 				md = map[string]string{}
 			}
 		}
+		sess = c08Session{valid: true, pkg: pkg, svc: svc, method: method, toMethod: toMethod, grpc: grpc, custom: custom, fs: fs, lis: lis,
+			listenerPresent: listenerPresent, named: named, md: md, mdBox: sess.mdBox, router: router, stub: stub}
 		to := rpcinfo.NewEndpointInfo(svcName, toMethod, nil, nil)
 		cfg := rpcinfo.NewRPCConfig()
 		if grpc {
